@@ -2,6 +2,9 @@
 
 Phase 1 (a process in which the classes are NOT deprecated) generates the job directories under their former
 identifiers; phase 2 (a process in which they are) applies the sequences of repairs and observes the tree."""
+import os as _os
+
+REPO_SRC = _os.environ.get("XV_REPO_SRC", "/repo/src")
 import json
 import os
 import shutil
@@ -107,7 +110,7 @@ def run(rep, tier, sd):
     try:
         bf = root / "behs.json"
         bf.write_text(json.dumps(behs))
-        env1 = dict(os.environ, PYTHONPATH="/repo/src:/verif")
+        env1 = dict(os.environ, PYTHONPATH=REPO_SRC + ":/verif")
         env1.pop("XV_DEPRECATE", None)
         p = subprocess.run(["/venv/bin/python", "-W", "ignore", "-c", PHASE1, str(root), str(bf)], env=env1, capture_output=True, text=True, timeout=900)
         line = next((l for l in p.stdout.splitlines() if l.startswith("P1")), None)
